@@ -793,7 +793,7 @@ theorem effstim_scaled (E : Env K) (thr atol rtol : K) (o : Obs K) (u : FluxUnit
       | .flam => pure (num / den)
       | .stmag => toMag E.T (num / den / E.P.stZero)
       | u' => do
-          let wp ← pivot E thr bm none
+          let wp ← pivot E thr bm wl
           convertOne E.P E.T (plainSamp wp) .flam u' (num / den)) := by
   have hpos := ((validate_ok_iff w).mp hv).1
   obtain ⟨h1, h2, h3⟩ := hu
@@ -831,10 +831,11 @@ theorem samples_nonneg (E : Env K) (m : Synphot.Tree K) (w yp : List K) (hv : va
   obtain ⟨x, hx, hfx⟩ := mapM_mem_ok w yp hyp v hvm
   exact hnn x v (((validate_ok_iff w).mp hv).1 x hx) hfx
 
-/-- the bandpass pivot on its own grid: `sqrt |∫λP / ∫P/λ|` (0 when `∫P/λ = 0`) -/
-theorem pivot_value (E : Env K) (thr : K) (bm : Synphot.Tree K) (xb yb : List K)
-    (hxb : wavelengthsOr thr bm none = .ok xb) (hyb : sampleTree E bm xb = .ok yb) :
-    pivot E thr bm none =
+/-- the bandpass pivot on the grid of the call (`wavelengths`, else its own sampling set):
+`sqrt |∫λP / ∫P/λ|` (0 when `∫P/λ = 0`) -/
+theorem pivot_value (E : Env K) (thr : K) (bm : Synphot.Tree K) (wl : Option (List K)) (xb yb : List K)
+    (hxb : wavelengthsOr thr bm wl = .ok xb) (hyb : sampleTree E bm xb = .ok yb) :
+    pivot E thr bm wl =
       .ok (if trapz ((xb.zip yb).map fun p => (p.1, p.2 / p.1)) = 0 then 0
         else E.T.sqrt |trapz ((xb.zip yb).map fun p => (p.1, p.1 * p.2)) /
           trapz ((xb.zip yb).map fun p => (p.1, p.2 / p.1))|) := by
@@ -1024,7 +1025,7 @@ def obs (c k : K) : Obs K :=
 
 /-- the pivot of the box on its grid: `∫λP = 6`, `∫P/λ = 3/4` -/
 theorem pivot_val (T : Transc K) (thr : K) : pivot (env T) thr bandTree none = .ok (T.sqrt |6 / (3 / 4)|) := by
-  rw [pivot_value (env T) thr bandTree [2, 4] [1, 1] (band_grid thr) (band_samples _)]
+  rw [pivot_value (env T) thr bandTree none [2, 4] [1, 1] (band_grid thr) (band_samples _)]
   simp only [List.zip_cons_cons, List.zip_nil_right, List.map_cons, List.map_nil, trapz]
   norm_num
   rfl
@@ -1265,13 +1266,14 @@ theorem band_B_ne_zero (xb yb : List K) (hv : validateWavelengths xb = .ok ()) (
   · exact trapz_zero_transfer_desc (fun p => p.1 * p.2) (fun p => p.2 / p.1) _ (descX_zip xb yb hd) hf hfg hB
 
 /-- … hence a positive pivot wavelength -/
-theorem pivot_pos_of_band (E : Env K) (hT : E.T.Lawful) (thr : K) (bm : Synphot.Tree K) (xb yb : List K)
-    (hxb : wavelengthsOr thr bm none = .ok xb) (hv : validateWavelengths xb = .ok ())
+theorem pivot_pos_of_band (E : Env K) (hT : E.T.Lawful) (thr : K) (bm : Synphot.Tree K) (wl : Option (List K))
+    (xb yb : List K)
+    (hxb : wavelengthsOr thr bm wl = .ok xb) (hv : validateWavelengths xb = .ok ())
     (hyb : sampleTree E bm xb = .ok yb) (hnn : ∀ v ∈ yb, 0 ≤ v)
     (hA : trapz ((xb.zip yb).map fun p => (p.1, p.2 / p.1)) ≠ 0) :
-    ∃ wp, pivot E thr bm none = .ok wp ∧ 0 < wp := by
+    ∃ wp, pivot E thr bm wl = .ok wp ∧ 0 < wp := by
   have hB := band_B_ne_zero xb yb hv hnn hA
-  refine ⟨_, pivot_value E thr bm xb yb hxb hyb, ?_⟩
+  refine ⟨_, pivot_value E thr bm wl xb yb hxb hyb, ?_⟩
   rw [if_neg hA]
   have hq : 0 < |trapz ((xb.zip yb).map fun p => (p.1, p.1 * p.2)) /
       trapz ((xb.zip yb).map fun p => (p.1, p.2 / p.1))| := abs_pos.mpr (div_ne_zero hB hA)
@@ -1281,4 +1283,73 @@ theorem pivot_pos_of_band (E : Env K) (hT : E.T.Lawful) (thr : K) (bm : Synphot.
   · exact h
   · rw [← h] at hsq; simp at hsq; exact absurd hsq.symm (ne_of_gt hq)
 
+namespace Witness
+
+/-! the same call with explicit wavelengths `[2, 3, 4]` (finer than the box's own sampling set) -/
+
+theorem valid234 : validateWavelengths ([2, 3, 4] : List K) = .ok () := by
+  rw [validate_ok_iff]
+  refine ⟨?_, Or.inl ?_⟩
+  · intro x hx; simp only [List.mem_cons, List.not_mem_nil, or_false] at hx
+    rcases hx with rfl | rfl | rfl <;> norm_num
+  · exact ⟨by norm_num, by norm_num, trivial⟩
+
+theorem grid234 (thr : K) (m : Synphot.Tree K) : wavelengthsOr thr m (some [2, 3, 4]) = .ok [2, 3, 4] := by
+  simp only [wavelengthsOr, valid234, bind, Except.bind, pure, Except.pure]
+
+theorem band_samples234 (E : Env K) : sampleTree E (bandTree : Synphot.Tree K) [2, 3, 4] = .ok [1, 1, 1] := by
+  simp only [sampleTree, List.mapM_cons, List.mapM_nil, band_eval E 2 (by constructor <;> norm_num),
+    band_eval E 3 (by constructor <;> norm_num), band_eval E 4 (by constructor <;> norm_num), bind, Except.bind, pure,
+    Except.pure]
+
+theorem overlap_full234 (E : Env K) (c : K) : checkOverlap E par band (src c) (some [2, 3, 4]) = .ok .full := by
+  have hmin : min (min (2 : K) 3) 4 = 2 := by
+    rw [min_eq_left (by norm_num : (2 : K) ≤ 3), min_eq_left (by norm_num : (2 : K) ≤ 4)]
+  have hmax : max (max (2 : K) 3) 4 = 4 := by
+    rw [max_eq_right (by norm_num : (2 : K) ≤ 3), max_eq_right (by norm_num : (3 : K) ≤ 4)]
+  have hst : overlapStatus (2 : K) 4 2 4 = .full := by simp only [overlapStatus]; norm_num
+  simp only [checkOverlap, band_model, src_model, ok_bind', Option.isNone_some, Bool.false_eq_true, if_false, valid234,
+    band_samples234, pure_bind, List.zip_cons_cons, List.zip_nil_right, gt_iff_lt, one_pos, decide_true,
+    List.filter_cons_of_pos, List.filter_nil, List.map_cons, List.map_nil, listMin, listMax, List.foldl_cons,
+    List.foldl_nil, hmin, hmax, hst, gradeVerdict]
+  rfl
+
+theorem admitOk234 (E : Env K) (c : K) (force : Bool) :
+    normalizeAdmit E par (src c) band (some [2, 3, 4]) force = .ok (src c, false) := by
+  have hk : (band : Spec K).kind = .bandpass := rfl
+  simp [normalizeAdmit, hk, overlap_full234, bind, Except.bind, pure, Except.pure]
+
+theorem prod_samples234 (E : Env K) (m : Synphot.Tree K) (f : K → K) (hm : ∀ x, m.eval E x = .ok (f x)) :
+    sampleTree E (.bin .mul m bandTree) [2, 3, 4] = .ok [f 2 * 1, f 3 * 1, f 4 * 1] := by
+  simp only [sampleTree, List.mapM_cons, List.mapM_nil, Synphot.Tree.eval, hm, band_eval E 2 (by constructor <;> norm_num),
+    band_eval E 3 (by constructor <;> norm_num), band_eval E 4 (by constructor <;> norm_num), BinOp.apply, bind,
+    Except.bind, pure, Except.pure]
+
+theorem prod_integral234 (E : Env K) (m : Synphot.Tree K) (f : K → K) (hm : ∀ x, m.eval E x = .ok (f x)) :
+    integrateTrapz E (.bin .mul m bandTree) [2, 3, 4] = .ok |(|f 2| + |f 3|) / 2 + (|f 3| + |f 4|) / 2| := by
+  simp only [integrateTrapz, valid234, prod_samples234 E m f hm, ok_bind', pure, Except.pure, trapzXY, List.map_cons,
+    List.map_nil, List.zip_cons_cons, List.zip_nil_right, trapz, mul_one]
+  congr 2; ring
+
+theorem integrals_density234 (T : Transc K) (c : K) (u : FluxUnit K) (hu : u ≠ .count) (hu' : u ≠ .obmag)
+    (area : Option K) (vega : Option (Synphot.Tree K)) (a0 : K) (u0 : FluxUnit K)
+    (hstd : stdTreeOf (env T) u vega = .ok (.leaf (.constFlux a0 u0))) (hu0 : IsLinearDensity u0) :
+    normalizeIntegrals (env T) par (flatTree c) bandTree u (some [2, 3, 4]) area vega =
+      .ok (|(|c| + |c|) / 2 + (|c| + |c|) / 2|,
+        |(|flatPhotlam phys u0 a0 2| + |flatPhotlam phys u0 a0 3|) / 2 +
+          (|flatPhotlam phys u0 a0 3| + |flatPhotlam phys u0 a0 4|) / 2|) := by
+  rw [normalizeIntegrals_density _ _ _ _ _ _ _ _ hu hu', grid234]
+  simp only [ok_bind', prod_integral234 (env T) (flatTree c) (fun _ => c) (flat_eval (env T) c), hstd, grid234,
+    prod_integral234 (env T) (.leaf (.constFlux a0 u0)) (flatPhotlam phys u0 a0) (constFlux_eval (env T) u0 hu0 a0)]
+  rfl
+
+theorem integrals_vega234 (T : Transc K) (c v : K) (area : Option K) :
+    normalizeIntegrals (env T) par (flatTree c) bandTree .vegamag (some [2, 3, 4]) area (some (flatTree v)) =
+      .ok (|(|c| + |c|) / 2 + (|c| + |c|) / 2|, |(|v| + |v|) / 2 + (|v| + |v|) / 2|) := by
+  rw [normalizeIntegrals_density _ _ _ _ _ _ _ _ (by intro h; cases h) (by intro h; cases h), grid234]
+  simp only [ok_bind', prod_integral234 (env T) (flatTree c) (fun _ => c) (flat_eval (env T) c), stdTreeOf, pure_bind,
+    grid234, prod_integral234 (env T) (flatTree v) (fun _ => v) (flat_eval (env T) v)]
+  rfl
+
+end Witness
 end Synphot.C10x
